@@ -9,35 +9,47 @@ def explore(ctx, proof, mine, builders, rule, assumptions, nontrivial=None, extr
        builders: list of (label, function(ctx) -> (L, first, nblocks, meta))"""
     others = {}
     first_fail = None
-    for (label, fn) in builders:
-        try:
-            L, first, nblocks, meta = fn(ctx)
-        except Exception as e:       # generator bug: make it visible
-            ctx.notes.append("generator %s raised %r" % (label, e))
-            continue
-        r = hist.run_history(ctx, L, first=first, nblocks=nblocks)
-        ops = [l.split()[0] for l in L if l.split()]
-        key = (label, json.dumps(meta, sort_keys=True, default=str), len(L), hash(tuple(L)))
-        nt = True if nontrivial is None else nontrivial(L, r)
-        ctx.count(key, nontrivial=nt)
-        ctx.bump("history:" + label)
-        for o in ops:
-            if o in hist.FILE_OPS or o in hist.NS_OPS:
-                ctx.bump("op:" + o)
-        nerr = sum(1 for rs in r["results"].values() if rs and rs[-1].startswith("err"))
-        ctx.bump("failing_calls", nerr)
-        if len(ctx.samples) < 3:
-            ctx.sample({"generator": label, "meta": meta, "script_head": L[:14], "lines": len(L)})
-        for (p, what, det) in r["findings"]:
-            if p in mine or p in ("CRASH", "TOOL"):
-                kind = "crash" if p == "CRASH" else ("corr" if p == "TOOL" else "oracle")
-                if first_fail is None and kind != "corr":
-                    first_fail = (L, first, nblocks, p, what)
-                ctx.fail(kind, what, {"generator": label, "meta": meta, "detail": det, "script": L}, expected="agreement with the reference model / a well-formed image", actual=det)
-            else:
-                others[p] = others.get(p, 0) + 1
-        if len(ctx.failures) >= 5:
+    rounds = 0
+    while True:
+        rounds += 1
+        built = []
+        for (label, fn) in builders:
+            try:
+                L, first, nblocks, meta = fn(ctx)
+            except Exception as e:       # generator bug: make it visible
+                ctx.notes.append("generator %s raised %r" % (label, e))
+                continue
+            built.append((label, L, first, nblocks, meta))
+        # the histories are independent: run them on all cores (generation above stays sequential, so a seed replays exactly)
+        results = common.pmap(lambda b: hist.run_history(ctx, b[1], first=b[2], nblocks=b[3]), built)
+        for (label, L, first, nblocks, meta), r in zip(built, results):
+            ops = [l.split()[0] for l in L if l.split()]
+            key = (label, json.dumps(meta, sort_keys=True, default=str), len(L), hash(tuple(L)))
+            nt = True if nontrivial is None else nontrivial(L, r)
+            ctx.count(key, nontrivial=nt)
+            ctx.bump("history:" + label)
+            for o in ops:
+                if o in hist.FILE_OPS or o in hist.NS_OPS:
+                    ctx.bump("op:" + o)
+            nerr = sum(1 for rs in r["results"].values() if rs and rs[-1].startswith("err"))
+            ctx.bump("failing_calls", nerr)
+            if len(ctx.samples) < 3:
+                ctx.sample({"generator": label, "meta": meta, "script_head": L[:14], "lines": len(L)})
+            for (p, what, det) in r["findings"]:
+                if p in mine or p in ("CRASH", "TOOL"):
+                    kind = "crash" if p == "CRASH" else ("corr" if p == "TOOL" else "oracle")
+                    if first_fail is None and kind != "corr":
+                        first_fail = (L, first, nblocks, p, what)
+                    ctx.fail(kind, what, {"generator": label, "meta": meta, "detail": det, "script": L}, expected="agreement with the reference model / a well-formed image", actual=det)
+                else:
+                    others[p] = others.get(p, 0) + 1
+            if len(ctx.failures) >= 5:
+                break
+        # a broken proof obligation or translation with no failing input yet: search further (fresh histories from the same
+        # generators) before reporting no-failing-input-found
+        if ctx.failures or not proof["problems"] or rounds >= 4:
             break
+        ctx.notes.append("proof obligations broken and no failing input in round %d: searching further" % rounds)
     if first_fail and ctx.tier == "quick":
         # shrink the first failing history to a minimal operation sequence for the replay file
         L, first, nblocks, p, what = first_fail
